@@ -22,6 +22,7 @@ func epLines(trace []Event) []string {
 	linkCancelled, watcherUsed := false, false
 	usedSent := map[int]bool{}
 	sent := map[int]bool{}
+	cancelledCtx := map[int]bool{}
 	cOf := func(id string) (int, bool) { c, ok := callIdx[id]; return c, ok }
 	add := func(f string, a ...any) { lines = append(lines, "ep "+fmt.Sprintf(f, a...)) }
 	for i, e := range trace {
@@ -95,6 +96,11 @@ func epLines(trace []Event) []string {
 			}
 		case "rcvf.ctx":
 			if c, ok := cOf(e.Key); ok {
+				if !cancelledCtx[c] {
+					// the context ended without the harness cancelling it (a deadline): an external event for the model
+					cancelledCtx[c] = true
+					lines = append(lines, fmt.Sprintf("ep cancel %d", c))
+				}
 				add("waiterGetsCtx %d", c)
 			}
 		case "rcvf.done", "rcvf.closed":
@@ -131,6 +137,7 @@ func epLines(trace []Event) []string {
 		case "ctx.cancelled":
 			var c int
 			fmt.Sscan(e.Key, &c)
+			cancelledCtx[c] = true
 			lines = append(lines, fmt.Sprintf("ep cancel %d", c))
 		case "link.cancelled":
 			linkCancelled = true
